@@ -18,6 +18,73 @@ PROPS = {
         "level_note": "Trusted: Lean kernel; axioms propext, Classical.choice, Quot.sound; the hand model is tied to the Go code only by "
                       "differential testing (bounded); fmt/strings stdlib semantics as modelled; Nat.repr as decimal notation.",
     },
+    "C17": {
+        "gen": ["NbtnsLocks"],
+        "rule": "cases = (a) sequential histories of RegisterName/QueryName/ReleaseName/RefreshName/MarkNameConflict/CleanExpiredNames on a fresh "
+                "NetBIOSNameServer, one history per line: every history of depth 4 (quick; thorough: depth 5, and depth 6 with positive TTLs) over "
+                "2 names x 2 types x 3 addresses x ttl sign, enumerated up to renaming of names/addresses; the ordering scenarios named by the property; "
+                "random histories up to length 200 over up to 4 names x 5 addresses (each address passed alternately as 4-byte and 16-byte net.IP); "
+                "each history is run twice on the real code: results in slice order vs the Lean heap model (tie) and results as sets + 'result unchanged "
+                "at the end' flags vs the atomic-map spec (property); (b) concurrent executions: 2-4 goroutines, <= 12 calls in total, recorded with "
+                "invocation/response stamps in a child process built with -race, every recorded history decided by the Lean op `linz`; "
+                "distinct = distinct input line; non-trivial = implementation output is a non-empty value",
+        "assumptions": ["each method of NetBIOSNameServer is one atomic step: justified by the extracted lock facts (first statement mu.Lock/RLock, deferred "
+                        "matching unlock, no early unlock, writers hold the write lock) and the contract of sync.RWMutex; Go's scheduler itself is not modelled",
+                        "time is abstracted to the sign of the ttl argument; the harness uses +-1h so the wall clock never decides",
+                        "addresses are classes of net.IP.Equal; names are opaque strings; NameType values other than Unique/Group are outside the alphabet",
+                        "Go slice semantics (append in place when cap allows, growth allocates, copy) as encoded in the heap model; capacity growth rule is unobservable",
+                        "race detector: built on the fly with `go build -race` (needs cgo/gcc, available offline here); if that build fails the run says so in "
+                        "evidence.extra.concurrent.race_build and the concurrent part runs without it"],
+        "trusted": ["sync.RWMutex", "Go race detector (looks for races on the executed schedules, does not exclude them)"],
+        "technique": "Lean 4 proof: induction over operation sequences on a hand model (value level + slice/heap level), refinement to an atomic-map specification, "
+                     "extracted lock facts decided by the kernel, proved-correct Wing-Gong linearizability checker applied to recorded concurrent executions; "
+                     "model tied to the Go code by differential correspondence",
+        "level_text": "Theorems inv_init/inv_step/inv_reachable (ownership invariant for every history of any length), refines/refines_history (the table is the atomic map of the "
+                      "specification, equal results), no_panic_reachable, holds_frame + register_ok_holds + release_ok_not_holds (owners = registered and not released), "
+                      "unique_no_takeover, heap_refines/heap_refines_history (Go-slice model = value model), query_result_is_current, query_result_is_copy (later "
+                      "updates never change a returned result; alias_would_leak shows the copy is what makes it true), lock_discipline/writers_take_write_lock/"
+                      "query_copies (facts regenerated from nbtns.go, decided by the kernel), linz_iff (the checker used on concurrent executions is sound and complete) "
+                      "are proved in Lean for all inputs about a hand-written model of nbtns.go; the model is tied to the code by running both on the same histories on every run.",
+        "level_note": "PARTIAL for schedules: histories (all lengths) are proved; concurrent interleavings are not modelled below method granularity. Atomicity of a method "
+                      "is an assumption resting on the extracted lock facts and sync.RWMutex; the harness observes 2-4 goroutines under the race detector and checks every "
+                      "recorded history for linearizability with the proved checker, which bounds but does not prove the concurrent clause. Trusted: Lean kernel; axioms "
+                      "propext, Classical.choice, Quot.sound; hand model tied by differential testing (bounded); extractor tools/extract/nbtns_locks.go.",
+    },
+    "C18": {
+        "gen": ["NbnsDispatch", "ServerFacts"],
+        "rule": "cases = (a) c18.dispatch: one request per case to a fresh NBNS server on a loopback socket (standalone Server / UDPServer / TCPServer), "
+                "all 16 opcodes x each server x 20 (quick) / 120 (thorough) settings of the other 12 flag bits (none, R, group, broadcast, all, random) x three "
+                "prepared tables x question/record present or absent; the observable outcome (response id, flags, QDCOUNT, answer records, QueryName of both "
+                "names afterwards) is compared with the Lean model of handlePacket over the generated mask/case constants (tie) and with the RFC 1002 routing "
+                "(property); (b) c18.sock: ten socket scenarios per run in a child process built with -race: isolation (4/32 concurrent clients x 50/2000 "
+                "pipelined queries with distinct ids and names against each NBNS server kind and the LLMNR server: every response received must carry the id of "
+                "an outstanding request of that client and the answer for that request), LLMNR client routing (shuffled responses, non-responses and unknown ids "
+                "against registered query channels, and Client.Query itself), Stop/Close at 10/200 random moments under traffic for the five loops (returns within a "
+                "60 s watchdog, second call does not panic, goroutine count returns to the baseline within 30 s); "
+                "distinct = distinct input line; non-trivial = implementation output is a non-empty value",
+        "assumptions": ["a handler goroutine's bytes are either a window of the loop buffer or its own copy: which one is the extracted fact ServerFacts (taint of the "
+                        "`go` arguments from buffers made outside the loop; llmnr.DecodeMessage accepted as non-retaining by a syntactic check of every use of its parameter)",
+                        "Close of a socket makes a blocked Read/Accept return an error (contract of package net) - the hypothesis `Consistent` of stop_terminates",
+                        "NBNS packet encoding/decoding (Marshal/Unmarshal, C10) is outside this model: requests are given to the model as parsed fields",
+                        "lost datagrams and slow responses are counted in the evidence and never reported; the only time bounds are 60 s watchdogs on Stop/Serve returning "
+                        "and 30 s for goroutines to settle",
+                        "race detector: built on the fly with `go build -race` (cgo/gcc available offline here); evidence.extra.sockets.race_build says whether it was used"],
+        "trusted": ["package net, sync.Once, sync.WaitGroup, sync.Map, Go scheduler", "Go race detector (finds races on executed schedules; does not exclude them)"],
+        "technique": "Lean 4 proof: bit-vector case analysis over all 16-bit flag words on constants regenerated from the source; induction over arbitrary schedules of an "
+                     "interleaving model and of a shutdown transition system; extracted facts decided by the kernel; handler model tied to the servers by differential "
+                     "correspondence over loopback sockets; concurrent behaviour observed under the race detector",
+        "level_text": "Theorems opcode_dispatch (all 65 536 flag words x 3 servers: the code's switch selects the RFC 1002 handler of bits 11..14), query_guard_exact, handle_eq_spec, "
+                      "response_carries_request_id, response_answers_the_request, response_header, handlers_short_circuit, route_matching_id / route_delivers / "
+                      "route_leaves_others (LLMNR client), isolated_if_copied / isolated_ids / one_response_per_request (every schedule of the receive-loop model) with "
+                      "shared_view_leaks (existence of a leaking schedule when the buffer is shared) and no_loop_shares_its_buffer (extracted), stop_terminates, "
+                      "stop_twice_panics_without_once, stop_any_number_of_times_with_once, stops_close_once_and_unblock (extracted) are proved in Lean; the handler model is "
+                      "tied to the real servers by running both on the same requests over loopback sockets on every run.",
+        "level_note": "PARTIAL for the runtime clauses: goroutine scheduling, absence of data races, prompt exit and absence of leaked goroutines are OBSERVED by the harness "
+                      "(loopback sockets, race detector, goroutine counts) and PROVED only of the interleaving / transition-system models; the link between those models and the "
+                      "code is the extracted facts (go-statement arguments, sync.Once around close, select on the quit channel) plus that observation, not a translation. "
+                      "Proof level for dispatch, response contents and client routing (hand model + Gen constants + differential tie). Trusted: Lean kernel; axioms propext, "
+                      "Classical.choice, Quot.sound; extractors tools/extract/nbns_dispatch.go and server_facts.go; package net; the race detector.",
+    },
 }
 
 NOT_APPLICABLE = {}
